@@ -38,7 +38,7 @@ PROPS = {
                     "stepped deterministically); harness/internal/track is shared with hws/hhttp/hconn",
             "technique": "Lean 4 proof (ownership invariant by induction over op sequences) + differential trace correspondence + tracking allocator"},
         "lean": ["NbioVerif.Properties.C11"], "drivers": ["respdrv"], "harness": ["hresp"],
-        "runs": [dict(RESP_RUN, fields=["n", "err", "tr", "rd", "cache", "q", "msg", "dl", "fl"])],
+        "runs": [dict(RESP_RUN, fields=["n", "err", "tr", "own", "rd", "cache", "q", "msg", "dl", "fl"])],
         "oracles": ["c11-"],
         "rule": "same stream as C09 (resp cases) plus body cases (segmented requests, handler reads, CloseAndClean) and conn cases (write "
                 "queue under scripted kernel answers) and ws cases (received segments with fragments/control frames/an invalid frame, "
